@@ -10,6 +10,7 @@ import (
 	"bytes"
 	"crypto/ecdsa"
 	"crypto/rand"
+	"crypto/sha256"
 	"encoding/base64"
 	"encoding/json"
 	"fmt"
@@ -22,6 +23,7 @@ import (
 
 	"github.com/btcsuite/btcutil/base58"
 	chacha "golang.org/x/crypto/chacha20poly1305"
+	"golang.org/x/crypto/curve25519"
 
 	gojose "github.com/go-jose/go-jose/v3"
 	hybrid "github.com/google/tink/go/hybrid/subtle"
@@ -79,6 +81,8 @@ const (
 type pool struct {
 	w    *env.World
 	keys map[string][][]*env.Key
+	// ownSender: for an envelope the adversary built itself, the key whose PRIVATE part it used as sender (0: none)
+	ownSender int
 }
 
 func newPool() *pool {
@@ -291,7 +295,9 @@ func (p *pool) unpack(c Case, h HEnv, b []byte) result {
 		}
 
 		kind := h.Packer
-		if c.Via == "auth" {
+		if c.Via == "leganon" {
+			kind = "leg-anon"
+		} else if c.Via == "auth" {
 			kind = "jwe-auth"
 		} else if c.Via == "anon" {
 			kind = "jwe-anon"
@@ -339,6 +345,7 @@ func (p *pool) run(kind string, c Case, tr *hx.Trace) {
 	}
 
 	lowBitFirst = c.Mut.Kind == "flip" && c.Mut.Arg == "alt"
+	p.ownSender = 0
 	mutated, coqE, own, err := p.mutate(c, e1, e2)
 	lowBitFirst = false
 
@@ -390,8 +397,9 @@ func (p *pool) run(kind string, c Case, tr *hx.Trace) {
 			match = true
 		}
 
-		if !match && own && r.PayloadID == forged && r.From == 0 {
-			match = true // the adversary's own anonymous envelope, attributed to nobody
+		if !match && own && r.PayloadID == forged && (r.From == 0 || r.From == p.ownSender) {
+			// the adversary's own envelope: attributed to nobody, or to the key whose private part it really used
+			match = true
 		}
 
 		if !match {
@@ -402,7 +410,7 @@ func (p *pool) run(kind string, c Case, tr *hx.Trace) {
 				sig = "sender-forged-es-downgrade"
 			case c.Mut.Kind == "pu-forge" && r.From != 0:
 				sig = "sender-forged-1pu-foreign-static-key"
-			case c.Mut.Kind == "build" && r.From != 0:
+			case (c.Mut.Kind == "build" || c.Mut.Kind == "lbuild" || c.Mut.Kind == "pu-build") && r.From != 0:
 				// the sender's private key took no part in this envelope (the harness built it from an outsider's keys)
 				sig = "sender-attributed-without-sender-key"
 			case c.Mut.Kind == "coreenc" && c.H1.Packer == "leg-auth":
@@ -440,6 +448,8 @@ func (p *pool) run(kind string, c Case, tr *hx.Trace) {
 		up = "(Some JweAuth)"
 	case "anon":
 		up = "(Some JweAnon)"
+	case "leganon":
+		up = "(Some LegAnon)"
 	default:
 		up = "(Some " + coqPacker(c.H1.Packer) + ")"
 	}
@@ -873,6 +883,9 @@ func (p *pool) mutateJWE(c Case, e1, e2 []byte) ([]byte, string, bool, error) {
 	case "build":
 		// an envelope BUILT by an outsider (party 5) from scratch with the public crypto API
 		return p.buildAdv(c)
+	case "pu-build":
+		// a hand-built ECDH-1PU envelope: the outsider uses ITS OWN static key; skid and apu name whom it likes
+		return p.puBuild(c)
 	case "pu-forge":
 		// an outsider (party 5) uses the public API with ITS OWN static key but names the honest sender in skid
 		return p.puForge(c)
@@ -1217,6 +1230,154 @@ func (p *pool) buildAdv(c Case) ([]byte, string, bool, error) {
 }
 
 func recsCoq2(items []string) string { return "[" + strings.Join(items, "; ") + "]" }
+
+// puBuild: Arg "skid=own|claimed;apu=own|claimed"
+func (p *pool) puBuild(c Case) ([]byte, string, bool, error) {
+	h := c.H1
+	mal := p.w.Parties[5]
+	malKey := p.keys[h.kt()][5][0]
+	claimed := p.key(h, h.Sender)
+	b64 := base64.RawURLEncoding.EncodeToString
+	who := func(name string) *env.Key {
+		if strings.Contains(c.Mut.Arg, name+"=own") {
+			return malKey
+		}
+
+		return claimed
+	}
+	skidK, apuK := who("skid"), who("apu")
+
+	var (
+		recs []*cryptoapi.PublicKey
+		rn   []int
+		kids []string
+	)
+
+	for _, k := range p.rcpts(h) {
+		pk := *k.Pub
+		pk.KID = k.Ref(h.Style)
+		recs = append(recs, &pk)
+		rn = append(rn, k.Name)
+		kids = append(kids, pk.KID)
+	}
+
+	// ephemeral key
+	epk := &cryptoapi.PrivateKey{}
+
+	if h.kt() == env.X25519 {
+		d := make([]byte, 32)
+		_, _ = rand.Read(d)
+
+		x, err := curve25519.X25519(d, curve25519.Basepoint)
+		if err != nil {
+			return nil, "", false, err
+		}
+
+		epk.PublicKey = cryptoapi.PublicKey{Type: "OKP", Curve: "X25519", X: x}
+		epk.D = d
+	} else {
+		cv, err := hybrid.GetCurve(recs[0].Curve)
+		if err != nil {
+			return nil, "", false, err
+		}
+
+		ek, err := ecdsa.GenerateKey(cv, rand.Reader)
+		if err != nil {
+			return nil, "", false, err
+		}
+
+		epk.PublicKey = cryptoapi.PublicKey{Type: "EC", Curve: ek.Curve.Params().Name, X: ek.X.Bytes(), Y: ek.Y.Bytes()}
+		epk.D = ek.D.Bytes()
+	}
+
+	epkJSON, err := epkJWK(&epk.PublicKey)
+	if err != nil {
+		return nil, "", false, err
+	}
+
+	algCoq := puAlg(h.kt(), h.Enc)
+	algStr := map[string]string{"PU_XC20PKW": "ECDH-1PU+XC20PKW", "PU_A128KW": "ECDH-1PU+A128KW", "PU_A192KW": "ECDH-1PU+A192KW",
+		"PU_A256KW": "ECDH-1PU+A256KW"}[algCoq]
+
+	sort.Strings(kids)
+	apv := sha256.Sum256([]byte(strings.Join(kids, ".")))
+	apuRef := apuK.Ref(h.Style)
+
+	prot := map[string]interface{}{"enc": string(env.EncAlg(h.Enc)), "typ": transport.MediaTypeV2EncryptedEnvelope,
+		"cty": transport.MediaTypeV2PlaintextPayload, "skid": skidK.Ref(h.Style), "alg": algStr, "epk": json.RawMessage(epkJSON),
+		"apu": b64([]byte(apuRef)), "apv": b64(apv[:])}
+	if len(recs) == 1 {
+		prot["kid"] = recs[0].KID
+	}
+
+	pb, _ := json.Marshal(prot)
+	protB64 := b64(pb)
+
+	cek := make([]byte, cekSize(h.Enc))
+	_, _ = rand.Read(cek)
+
+	kt := ecdh.KeyTemplateForECDHPrimitiveWithCEK(cek, true, aeadAlg[h.Enc])
+
+	ekh, err := keyset.NewHandle(kt)
+	if err != nil {
+		return nil, "", false, err
+	}
+
+	pubKH, err := ekh.Public()
+	if err != nil {
+		return nil, "", false, err
+	}
+
+	prim, err := ecdh.NewECDHEncrypt(pubKH)
+	if err != nil {
+		return nil, "", false, err
+	}
+
+	ser, err := prim.Encrypt(payloadBytes(forged), []byte(protB64))
+	if err != nil {
+		return nil, "", false, err
+	}
+
+	ed := &composite.EncryptedData{}
+	if err := json.Unmarshal(ser, ed); err != nil {
+		return nil, "", false, err
+	}
+
+	kh, err := mal.KMS.Get(malKey.KMSKID)
+	if err != nil {
+		return nil, "", false, err
+	}
+
+	raw := &env.RawJWE{Protected: protB64, IV: b64(ed.IV), Ciphertext: b64(ed.Ciphertext), Tag: b64(ed.Tag), Compact: len(recs) == 1}
+
+	for _, pk := range recs {
+		opts := []cryptoapi.WrapKeyOpts{cryptoapi.WithSender(kh), cryptoapi.WithTag(ed.Tag), cryptoapi.WithEPK(epk)}
+		if h.kt() == env.X25519 {
+			opts = append(opts, cryptoapi.WithXC20PKW())
+		}
+
+		wk, err := mal.Crypto.WrapKey(cek, []byte(apuRef), apv[:], pk, opts...)
+		if err != nil {
+			return nil, "", false, err
+		}
+
+		rr := env.RawRec{EncryptedKey: b64(wk.EncryptedCEK)}
+		if len(recs) > 1 {
+			rr.Header, _ = json.Marshal(map[string]string{"kid": pk.KID})
+		}
+
+		raw.Recipients = append(raw.Recipients, rr)
+	}
+
+	if skidK == malKey {
+		p.ownSender = malKey.Name
+	}
+
+	coq := fmt.Sprintf("WJwe (adv_1pu_jwe2 (mkcfg JweAuth %s %s %s) %s %d %d %d %d %s (mkrnd 200000 200050 200051))", h.kt(), h.Enc,
+		coqStyle(h.Style), algCoq, forged, skidK.Name, apuK.Name, malKey.Name, hx.CoqNList(rn))
+
+	return raw.Bytes(), coq, true, nil
+}
 
 func puAlg(kt, enc string) string {
 	if kt == env.X25519 {
@@ -1578,6 +1739,8 @@ func (p *pool) mutateLegacy(c Case, e1, e2 []byte) ([]byte, string, bool, error)
 		return reprot(&np, l, "")
 	case "coreenc":
 		return p.coReencLegacy(c, r1, p1)
+	case "lbuild":
+		return p.buildAdvLegacy(c)
 	}
 
 	return nil, "", false, fmt.Errorf("unknown legacy mutation %+v", m)
@@ -1851,10 +2014,176 @@ func (p *pool) gen(tr *hx.Trace, rng *hx.Rng, thorough bool) {
 		if !legacy && auth {
 			emit("attack", pr, Mut{Kind: "pu-forge"}, victim, "packager")
 			emit("attack", pr, Mut{Kind: "pu-forge"}, victim, "packer")
+
+			for _, a := range []string{"skid=own;apu=own", "skid=own;apu=claimed", "skid=claimed;apu=own", "skid=claimed;apu=claimed"} {
+				emit("built", pr, Mut{Kind: "pu-build", Arg: a}, victim, "packager")
+				emit("built", pr, Mut{Kind: "pu-build", Arg: a}, victim, "packer")
+			}
 		}
 
 		if n > 1 && auth {
 			emit("attack", pr, Mut{Kind: "coreenc"}, victim, via)
+		}
+	}
+}
+
+// buildAdvLegacy: a legacy envelope BUILT by an outsider (party 5) with the public CryptoBox API.  Arg:
+// n=<recipients>;pos=<victim>;sender=claimed|own|none;ek=seal|box|box2;alg=auth|anon;iv=present|absent
+func (p *pool) buildAdvLegacy(c Case) ([]byte, string, bool, error) {
+	h := c.H1
+	a := map[string]string{}
+
+	for _, kv := range strings.Split(c.Mut.Arg, ";") {
+		if q := strings.SplitN(kv, "=", 2); len(q) == 2 {
+			a[q[0]] = q[1]
+		}
+	}
+
+	n, _ := strconv.Atoi(a["n"])
+	pos, _ := strconv.Atoi(a["pos"])
+	mal := p.w.Parties[5]
+	malKey := p.keys[env.Ed25519][5][0]
+	claimed := p.key(h, h.Sender)
+	victim := p.keys[env.Ed25519][c.Party][0]
+	uc := base64.URLEncoding
+
+	box, err := localkms.NewCryptoBox(mal.KMS)
+	if err != nil {
+		return nil, "", false, err
+	}
+
+	cek := make([]byte, 32)
+	_, _ = rand.Read(cek)
+	cekCoq := "(cek_of (mkrnd 200000 200050 200051))"
+
+	prot := &env.LegacyProt{Enc: "chacha20poly1305_ietf", Typ: "JWM/1.0", Alg: "Authcrypt"}
+	algCoq := "LAuthcrypt"
+
+	if a["alg"] == "anon" {
+		prot.Alg, algCoq = "Anoncrypt", "LAnoncrypt"
+	}
+
+	var recsCoq []string
+
+	d := 0
+
+	for i := 0; i < n; i++ {
+		rk := victim
+		if i != pos {
+			pa := 2 + d%3
+			if pa == c.Party {
+				pa = 2 + (d+1)%3
+			}
+
+			rk = p.keys[env.Ed25519][pa][0]
+			d++
+		}
+
+		rcurve, err := cryptoutil.PublicEd25519toCurve25519(rk.Bytes)
+		if err != nil {
+			return nil, "", false, err
+		}
+
+		var rec env.LegacyRec
+
+		rec.Header.KID = base58.Encode(rk.Bytes)
+		senderCoq := "(Tup [])"
+
+		switch a["sender"] {
+		case "claimed", "own":
+			sk := claimed
+			if a["sender"] == "own" {
+				sk = malKey
+			}
+
+			sealed, e := box.Seal([]byte(base58.Encode(sk.Bytes)), rcurve, rand.Reader)
+			if e != nil {
+				return nil, "", false, e
+			}
+
+			rec.Header.Sender = uc.EncodeToString(sealed)
+			senderCoq = fmt.Sprintf("(seal %d %d (Pub %d))", 200100+i, rk.Name, sk.Name)
+		}
+
+		nonce := make([]byte, 24)
+		_, _ = rand.Read(nonce)
+		rec.Header.IV = uc.EncodeToString(nonce)
+		ivCoq := fmt.Sprintf("(Bytes %d)", 300+i)
+		ivHdrCoq := ivCoq
+
+		if a["iv"] == "absent" {
+			rec.Header.IV, ivHdrCoq = "", "(Tup [])"
+		}
+
+		var (
+			ek    []byte
+			ekCoq string
+		)
+
+		if a["ek"] == "seal" {
+			ek, err = box.Seal(cek, rcurve, rand.Reader)
+			ekCoq = fmt.Sprintf("(seal %d %d %s)", 200200+i, rk.Name, cekCoq)
+		} else {
+			bk := malKey
+			if a["ek"] == "box2" {
+				bk = p.keys[env.Ed25519][5][1] // a key unrelated to the one named in the sender header
+			}
+
+			ek, err = box.Easy(cek, nonce, rcurve, bk.KMSKID)
+			ekCoq = fmt.Sprintf("(Wrap (box_key %d %d %s) %s)", bk.Name, rk.Name, ivCoq, cekCoq)
+		}
+
+		if err != nil {
+			return nil, "", false, err
+		}
+
+		rec.EncryptedKey = uc.EncodeToString(ek)
+		prot.Recipients = append(prot.Recipients, rec)
+		recsCoq = append(recsCoq, fmt.Sprintf("mklrcp %d %s %s %s", rk.Name, senderCoq, ivHdrCoq, ekCoq))
+	}
+
+	out := &env.RawLegacy{}
+	out.SetProt(prot)
+
+	aead, err := chacha.New(cek)
+	if err != nil {
+		return nil, "", false, err
+	}
+
+	cn := make([]byte, chacha.NonceSize)
+	_, _ = rand.Read(cn)
+	sealed := aead.Seal(nil, cn, payloadBytes(forged), []byte(out.Protected))
+	out.IV = uc.EncodeToString(cn)
+	out.CipherText = uc.EncodeToString(sealed[:len(sealed)-16])
+	out.Tag = uc.EncodeToString(sealed[len(sealed)-16:])
+
+	if a["sender"] == "own" && a["ek"] == "box" && a["iv"] != "absent" {
+		p.ownSender = malKey.Name
+	}
+
+	coq := fmt.Sprintf("WLeg (reenc_leg %s %d (mklenv (Some (mklphdr true %s %s 0)) (Bytes 78) (Junk 0) (Junk 0)))", cekCoq, forged,
+		algCoq, recsCoq2(recsCoq))
+
+	return out.Bytes(), coq, true, nil
+}
+
+func (p *pool) genBuiltLegacy(tr *hx.Trace) {
+	h := HEnv{Packer: "leg-auth", KT: env.Ed25519, Enc: "XC20P", Style: "raw", Payload: 11, Sender: [2]int{0, 0}, Rcpts: [][2]int{{1, 0}}}
+
+	for n := 1; n <= 3; n++ {
+		for pos := 0; pos < n; pos++ {
+			for _, sender := range []string{"claimed", "own", "none"} {
+				for _, ek := range []string{"seal", "box", "box2"} {
+					for _, alg := range []string{"auth", "anon"} {
+						for _, iv := range []string{"present", "absent"} {
+							for _, via := range []string{"packager", "packer", "leganon"} {
+								arg := fmt.Sprintf("n=%d;pos=%d;sender=%s;ek=%s;alg=%s;iv=%s", n, pos, sender, ek, alg, iv)
+								p.run("built", Case{H1: h, H2: h, Mut: Mut{Kind: "lbuild", Arg: arg}, Party: 1, Via: via}, tr)
+							}
+						}
+					}
+				}
+			}
 		}
 	}
 }
@@ -1971,4 +2300,5 @@ func main() {
 	corpus(p, args.Extra, tr)
 	p.gen(tr, hx.NewRng(args.Seed), args.Tier == "thorough")
 	p.genBuilt(tr, hx.NewRng(args.Seed+99), args.Tier == "thorough")
+	p.genBuiltLegacy(tr)
 }
